@@ -235,3 +235,7 @@ mut("c20_stats_miss_recorded_after_body", ["C20", "C15"], "cachelito-async-macro
     "        // Cache the result (conditional based on cache_if predicate or default behavior)\n        #cache_insert",
     "        // Cache the result (conditional based on cache_if predicate or default behavior)\n        #cache_insert\n        let _ = __cache.get(&__key);",
     "async wrapper performs a second lookup after storing (touches recency / statistics after the body)")
+mut("c16_global_fifo_eviction_never_ends", ["C16"], CORE + "global_cache.rs",
+    "                            if map_write.contains_key(&evict_key) {\n                                map_write.remove(&evict_key);\n                                break;\n                            }\n                        }\n                    }\n                }\n            }\n        }\n    }\n}",
+    "                            if map_write.contains_key(&evict_key) {\n                                o.push_front(evict_key.clone());\n                            }\n                        }\n                    }\n                }\n            }\n        }\n    }\n}",
+    "global FIFO/LRU entry-limit eviction loop never terminates (hang, not panic)")
